@@ -19,7 +19,7 @@ EXPLANATION = (
     "are derived (zBot, z_top, zMid) are consumed only by the enumerated groundwater routines; the initial-water-content "
     "interpolation takes its mid-depths from the base column dzsum. C18.d (typestate): the scalars fill_nan derives from the frame (zSoil, nComp) are read, in every "
     "function that receives the user's Soil, only on paths that pass fill_nan() since the entry and since every dz update, and such a "
-    "function returns with the Soil fresh - so the deepening loop tests the real depth of the profile. C18.e: add_layer's two branches compare a depth from the surface (thickness, resp. thickness + a value read from dzsum) with the compartment bottoms under the same rounding (sibling agreement + quantity kinds). NOT decided: arbitrary custom dz, pedotransfer "
+    "function returns with the Soil fresh - so the deepening loop tests the real depth of the profile. C18.e: add_layer's two branches compare a depth from the surface (thickness, resp. thickness + a value read from dzsum) with the compartment bottoms under the same rounding (sibling agreement + quantity kinds). C18.f: the per-layer initial water content is written into layer depth_layer[i] with the value computed for request i (same index), never by position. NOT decided: arbitrary custom dz, pedotransfer "
     "ranges, numeric interpolation of initial water content.")
 
 DERIVED_CONSUMERS_OK = {
@@ -483,10 +483,75 @@ def _stmt_of(fi, node):
     return node
 
 
+def rule_f(chk, prog):
+    """C18.f (the initial water content equals the requested value *in each layer*): in the per-layer branch the compartments that receive
+    request i are those of layer depth_layer[i] - the same i that selected the hydraulic properties the value was computed from - never
+    the i-th layer by position."""
+    from ..rdef import flow_of, ENTRY
+    fi = prog.find_func("read_model_initial_conditions")
+    chk.fn(fi.key)
+    where = f"{fi.module}:{fi.qualname}"
+    flow = flow_of(fi)
+    cfg = flow.cfg
+    # the local holding the user's depth_layer list
+    dl = {a.targets[0].id for a in walk_no_nested(fi.node) if isinstance(a, ast.Assign) and isinstance(a.targets[0], ast.Name)
+          and any(isinstance(x, ast.Attribute) and x.attr == "depth_layer" for x in ast.walk(a.value))}
+    changed = True
+    while changed:
+        changed = False
+        for a in walk_no_nested(fi.node):
+            if isinstance(a, ast.Assign) and isinstance(a.targets[0], ast.Name) and a.targets[0].id not in dl \
+                    and any(isinstance(x, ast.Name) and x.id in dl for x in ast.walk(a.value)) and isinstance(a.value, ast.Call) \
+                    and isinstance(a.value.func, ast.Attribute) and a.value.func.attr == "array":
+                dl.add(a.targets[0].id); changed = True
+    if not dl:
+        raise AnalysisError("read_model_initial_conditions no longer reads InitWC.depth_layer")
+    n = 0
+    for a in walk_no_nested(fi.node):
+        if not (isinstance(a, ast.Assign) and isinstance(a.targets[0], ast.Subscript) and isinstance(a.targets[0].slice, ast.Name) and isinstance(a.value, ast.Name)):
+            continue
+        nid = flow.stmt_node.get(id(a))
+        idx = a.targets[0].slice.id
+        idefs = [cfg.nodes[d].ast for d in flow.defs_reaching(idx, nid) if d != ENTRY]
+        if not idefs or not all(isinstance(d, ast.Assign) and "Layer" in norm(d.value) and "query" in norm(d.value) for d in idefs):
+            continue
+        n += 1
+        construct = f"{norm(a)} with {norm(idefs[0])[:60]}"
+        lnames = {x.id for d in idefs for x in ast.walk(d.value) if isinstance(x, ast.Name) and x.id not in ("profile", "int")}
+        problems = []
+        sel_idx = set()
+        for ln in lnames:
+            for d in flow.defs_reaching(ln, flow.stmt_node[id(idefs[0])]):
+                da = cfg.nodes[d].ast if d != ENTRY else None
+                v = da.value if isinstance(da, ast.Assign) else None
+                if isinstance(v, ast.Subscript) and isinstance(v.value, ast.Name) and v.value.id in dl:
+                    sel_idx.add(norm(v.slice))
+                else:
+                    problems.append(f"the layer selector `{ln}` is defined by `{norm(da)[:50] if da is not None else 'a parameter'}`, not read from the requested "
+                                    f"layer list ({', '.join(sorted(dl))})")
+        val_idx = set()
+        for d in flow.defs_reaching(a.value.id, nid):
+            da = cfg.nodes[d].ast if d != ENTRY else None
+            v = da.value if isinstance(da, ast.Assign) else None
+            if isinstance(v, ast.Subscript) and isinstance(v.value, ast.Name):
+                val_idx.add(norm(v.slice))
+            else:
+                problems.append(f"the stored value `{a.value.id}` is defined by `{norm(da)[:50] if da is not None else 'a parameter'}`")
+        if not problems and sel_idx != val_idx:
+            problems.append(f"layer selected with index {sorted(sel_idx)} but value taken with index {sorted(val_idx)}")
+        if problems:
+            chk.violation("C18.f", where, construct, "; ".join(problems) + ": request i is written into another layer than the one it was computed for "
+                          "(e.g. depth_layer=[2, 1])", loc=fi.loc(a))
+        else:
+            chk.ok("C18.f", where, construct, f"layer = {sorted(dl)[0]}[{sorted(sel_idx)[0]}], value = values[{sorted(val_idx)[0]}]")
+    chk.floor("C18.f", n, 1, "per-layer stores of the initial water content")
+
+
 def run(chk, prog, tier):
     rule_a(chk, prog)
     rule_b(chk, prog)
     rule_c(chk, prog)
     rule_d(chk, prog)
     rule_e(chk, prog)
+    rule_f(chk, prog)
     chk.assume("A-1")
